@@ -56,6 +56,12 @@ def opEval (s scope : String) : String :=
   | .error e => showParseErr e
   | .ok d => showEval (d.evaluate (parseScope scope))
 
+/-- `EVALSEQ`: one parsed expression object evaluated under several scopes in turn (the object keeps no state between evaluations) -/
+def opEvalSeq (s scopes : String) : String :=
+  match parseDim s.toList with
+  | .error e => showParseErr e
+  | .ok d => " ## ".intercalate ((scopes.splitOn "|").map fun sc => showEval (d.evaluate (parseScope sc)))
+
 def optShape (s : String) : Option (List Char) := if s == "<None>" then none else some s.toList
 
 def showOptNat : Option Nat → String
@@ -619,6 +625,8 @@ def handle (line : String) : String :=
   match line.splitOn "\t" with
   | ["PARSE", s] => opParse s ++ "\t" ++ specDim s.toList
   | ["EVAL", s, scope] => opEval s scope ++ "\t" ++ specEval s.toList (parseScope scope)
+  | ["EVALSEQ", s, scopes] =>
+    opEvalSeq s scopes ++ "\t" ++ " ## ".intercalate ((scopes.splitOn "|").map fun sc => specEval s.toList (parseScope sc))
   | ["SHAPE", s] => opShape s ++ "\t" ++ specShape s
   | ["USE", s] => opUse s ++ "\t" ++ specShape s
   | ["CHECK", spec, dt, dims] => opCheck spec dt dims
